@@ -46,4 +46,6 @@
 (declare-fun str_pats (Iface) Slice)
 (declare-fun node_nchildren (Iface) Int)        ; Children(), by position
 (declare-fun node_childat (Iface Int) Iface)
+(declare-fun node_grouping (Iface String) Iface)   ; LookupGrouping(name): the grouping visible from the node under that name
+(declare-fun node_hasgrouping (Iface String) Bool)
 (declare-fun node_argdate (Iface) String)       ; ArgDate()
